@@ -1,5 +1,6 @@
 import O2P.Drv.Common
 import O2P.Model.Cookies
+import O2P.Model.Ttl
 namespace O2P.Drv
 open O2P O2P.Proto O2P.Ck
 
@@ -45,6 +46,24 @@ def opRHist : Op
     pure (match kvGet (rrun [] parsed) t with | some s => s!"some:{s}" | none => "none")
   | _ => none
 
-def cookiesOps : List (String × Op) := [("mkcookie", opMkCookie), ("mkcookie-cfg", opMkCookieCfg), ("rhist", opRHist)]
+/-- `ttlhist expireSeconds ops t` : the store with lifetimes; ops = `S:t:s` | `L:t` | `D:t` | `P:seconds` joined by `,`.
+    Output: what loads under `t` and the TTL the store reports (`none` no live entry, `inf` no expiry, seconds). -/
+def opTtlHist : Op
+  | [expire, ops, t] => do
+    let t ← Proto.nat t
+    let expire ← Proto.nat expire
+    let parsed ← (if ops == "-" then some [] else (ops.splitOn ",").mapM (fun o => match o.splitOn ":" with
+      | ["S", t, s] => do pure (Ttl.Op.save (← Proto.nat t) (← Proto.nat s))
+      | ["L", t] => do pure (Ttl.Op.load (← Proto.nat t))
+      | ["D", t] => do pure (Ttl.Op.del (← Proto.nat t))
+      | ["P", d] => do pure (Ttl.Op.pass (← Proto.nat d))
+      | _ => none))
+    let st := Ttl.run expire parsed
+    let g := match Ttl.get st t with | some s => s!"some:{s}" | none => "none"
+    let l := match Ttl.ttl st t with | none => "none" | some none => "inf" | some (some n) => s!"{n}"
+    pure s!"{g} {l}"
+  | _ => none
+
+def cookiesOps : List (String × Op) := [("mkcookie", opMkCookie), ("mkcookie-cfg", opMkCookieCfg), ("rhist", opRHist), ("ttlhist", opTtlHist)]
 
 end O2P.Drv
